@@ -19,7 +19,8 @@ C08 line protocol.  One line = one whole case:
   node     <K><items>  K in D L T S F; items separated by `,`; dict items are `<atom>=<obj>`;
            node ids are the positions of the node tokens, starting at 0
 
-Output: `H=<heap level> T=<tree machine> R=<recursion>` (T and R are `-` unless tree = 1).
+Output: `H=<heap level loop> [M=<heap level memoised recursion>] T=<tree machine> R=<tree recursion>`
+(M only for remap; T and R are `-` unless tree = 1).
   remap:    rebuilt value; containers `<K>#<label>[items]`, a repeated reference `^<label>`,
             labels in first-visit order, set members in the order of their label-free text,
             empty tuples / frozensets carry no label; errors `!TypeError` / `!ValueError`
@@ -251,7 +252,10 @@ def remapLine (pr : Prog) (reraise tree : Bool) (h : Heap) (root : Obj) : String
         ((match remapIter c v with | some r => showV r | none => "!TypeError"), showV (remapRec c v))
       | none => ("!unfold", "!unfold")
     else ("-", "-")
-  s!"H={hpart} T={tpart} R={rpart}"
+  let mpart := match recRoot ⟨hprogVisit pr, reraise⟩ h root (hbound h) with
+    | some (st, v) => showH st.out v
+    | none => if hpart.startsWith "!" then hpart else "!no-result"
+  s!"H={hpart} M={mpart} T={tpart} R={rpart}"
 
 def entryS (p : Path) (k : Key) (vw : View) (status : String) : String :=
   pathS (p ++ [k]) ++ ">" ++ viewS vw ++ ":" ++ status
